@@ -588,6 +588,28 @@ FetchTick ==
             /\ fetchT' = IF ToFetch(fetchT) # {} /\ \E p \in BestPeers : ~pf[p].tpr.on
                          THEN MarkSent(fetchT, {e[1] : e \in ToFetch(fetchT)}) ELSE fetchT
 
+\* the request side of the fetch tick (which peer holds which request afterwards): everything that was never sent
+\* or has timed out goes, one request per kind, to ONE best peer whose slot of that kind is free; nothing else
+\* changes.  (Chunks of GET_BLOCKS_PROOF_LIMIT = 1000 hashes are not modelled.)  Relational: MC_Fetch generates
+\* the outcomes, the trace specification checks the logged one.
+FetchTickReqRel ==
+    LET go == ~(fetchH = {} /\ fetchT = {}) /\ BestPeers # {}
+        hids == {e[1] : e \in ToFetch(fetchH)}
+        tids == {e[1] : e \in ToFetch(fetchT)}
+        idleB == {p \in BestPeers : ~pf[p].bpr.on}
+        idleT == {p \in BestPeers : ~pf[p].tpr.on}
+    IN /\ IF go /\ hids # {} /\ idleB # {}
+          THEN \E p \in idleB : /\ pf'[p].bpr.on /\ pf'[p].bpr.last = tip /\ ~pf'[p].bpr.get
+                                /\ Range(pf'[p].bpr.hs) = hids
+                                /\ \A q \in PeerNames \ {p} : pf'[q].bpr = pf[q].bpr
+          ELSE \A q \in PeerNames : pf'[q].bpr = pf[q].bpr
+       /\ IF go /\ tids # {} /\ idleT # {}
+          THEN \E p \in idleT : /\ pf'[p].tpr.on /\ pf'[p].tpr.last = tip
+                                /\ Range(pf'[p].tpr.hs) = tids
+                                /\ \A q \in PeerNames \ {p} : pf'[q].tpr = pf[q].tpr
+          ELSE \A q \in PeerNames : pf'[q].tpr = pf[q].tpr
+       /\ \A q \in PeerNames : pf'[q].cps = pf[q].cps /\ pf'[q].latest = pf[q].latest /\ pf'[q].br = pf[q].br
+
 \* what remove_peer / a refresh timeout does for peer p's outstanding fetch requests
 TimeoutPeers(ps) ==
     /\ fetchH' = MarkTimeout(fetchH, UNION {IF pf[p].bpr.on THEN Range(pf[p].bpr.hs) ELSE {} : p \in ps})
